@@ -200,6 +200,22 @@ fn eval_plan(seed: u64, plan: &Plan) -> ItemOut {
                 plan.modes[i - 1].label(kind)
             }
         };
+        // Fingerprint component: the abstract shape of the rejected change (not its concrete
+        // reason when the accepted prefix of a multi-action change is what stays behind).
+        let mechanism = |c: usize, fields: &str| -> String {
+            match plan.modes.get(c.wrapping_sub(1)) {
+                Some(Mode::Rejected { pos, .. }) if *pos >= 1 => "multi-action-change/accepted-actions-before-the-rejected-one-stay-applied".to_string(),
+                Some(Mode::Rejected { .. }) => format!("single-rejected-action/{fields}"),
+                Some(Mode::BadSig) => "bad-commit-signature".to_string(),
+                _ => format!("valid-by-construction-rejected-in-context/{fields}"),
+            }
+        };
+        let pos_cost = |c: usize| -> u64 {
+            match plan.modes.get(c.wrapping_sub(1)) {
+                Some(Mode::Rejected { pos, reason }) => *pos as u64 * 10 + *reason as u64,
+                _ => 0,
+            }
+        };
         let e1 = eval_subset(w, plan, &built, &all);
         let mut vs: Vec<Violation> = vec![];
         let invalid_constructed = plan.modes.iter().filter(|m| !m.is_valid()).count();
@@ -265,7 +281,10 @@ fn eval_plan(seed: u64, plan: &Plan) -> ItemOut {
         facets.push(format!("dropped={}", closure.len()));
         // (3) the state equals the evaluation of the history without the dropped changes.
         let mut result = if closure.is_empty() { "nothing-dropped" } else { "clean" };
-        if !closure.is_empty() {
+        if closure != dropped {
+            // The returned history is not what clause (3) quantifies over; (2) is reported.
+            result = "dependent-kept";
+        } else if !closure.is_empty() {
             let keep: BTreeSet<usize> = all.difference(&closure).copied().collect();
             let e2 = eval_subset(w, plan, &built, &keep);
             let same = match (e1.observed(), e2.observed()) {
@@ -304,13 +323,11 @@ fn eval_plan(seed: u64, plan: &Plan) -> ItemOut {
                             let more = kept_indices(&e0, &built).map(|k| k != keep_c).unwrap_or(true);
                             vs.push(
                                 Violation::new(
-                                    format!(
-                                        "C06/{}/rejected-change-left-trace/{}/{}{}",
-                                        kind.name(),
-                                        mode_label(*c),
-                                        fields(&ec, &e0),
-                                        if more { "/history-without-it-drops-more" } else { "" }
-                                    ),
+                                    if more {
+                                        format!("C06/{}/rejected-change-decides-whether-a-concurrent-change-is-accepted", kind.name())
+                                    } else {
+                                        format!("C06/{}/rejected-change-left-trace/{}", kind.name(), mechanism(*c, &fields(&ec, &e0)))
+                                    },
                                     format!(
                                         "{}: change {c} ({}) is absent from the history returned by get, but the object differs from the evaluation of the history without it in: {}",
                                         kind.name(),
@@ -320,7 +337,7 @@ fn eval_plan(seed: u64, plan: &Plan) -> ItemOut {
                                     witness(json!({"rejected_change": c, "history_evaluated": with_c, "history_without_rejected": keep_c,
                                                    "with": summary(&ec, &built), "without": summary(&e0, &built)})),
                                 )
-                                .cost(base_cost + 50),
+                                .cost(base_cost + 50 + pos_cost(*c)),
                             );
                         }
                     }
@@ -329,13 +346,15 @@ fn eval_plan(seed: u64, plan: &Plan) -> ItemOut {
                     let labels: BTreeSet<String> = culprits.iter().map(|c| mode_label(*c)).collect();
                     vs.push(
                         Violation::new(
-                            format!(
-                                "C06/{}/rejected-change-left-trace/{}/{}{}",
-                                kind.name(),
-                                labels.iter().cloned().collect::<Vec<_>>().join("+"),
-                                fields(&e1, &e2),
-                                if drops_more { "/history-without-it-drops-more" } else { "" }
-                            ),
+                            if drops_more {
+                                // The history without the rejected changes loses further changes:
+                                // a change that was accepted next to them is rejected without them.
+                                format!("C06/{}/rejected-change-decides-whether-a-concurrent-change-is-accepted", kind.name())
+                            } else if culprits.len() == 1 {
+                                format!("C06/{}/rejected-change-left-trace/{}", kind.name(), mechanism(culprits[0], &fields(&e1, &e2)))
+                            } else {
+                                format!("C06/{}/rejected-change-left-trace/several-rejected-changes-jointly", kind.name())
+                            },
                             format!(
                                 "{}: change(s) {:?} ({}) are absent from the history returned by get, but the object differs from the evaluation of the history without them in: {}",
                                 kind.name(),
@@ -346,7 +365,7 @@ fn eval_plan(seed: u64, plan: &Plan) -> ItemOut {
                             witness(json!({"rejected_changes": culprits, "dropped": closure, "history_without_rejected": keep,
                                            "with": summary(&e1, &built), "without": summary(&e2, &built)})),
                         )
-                        .cost(base_cost + culprits.len() as u64 * 10),
+                        .cost(base_cost + culprits.len() as u64 * 10 + culprits.iter().map(|c| pos_cost(*c)).sum::<u64>()),
                     );
                 }
             }
